@@ -26,6 +26,7 @@ type Par struct {
 	Shape []int    `json:"shape,omitempty"`
 	Index [][2]int `json:"index,omitempty"`
 	Nil   bool     `json:"nilconf,omitempty"` // pass a nil config (defaults) to the component
+	NegZ  bool     `json:"negzero,omitempty"` // Full: the requested constant is -0.0 (no rational literal has a sign of zero)
 	Inst  int      `json:"inst,omitempty"`    // > 0: re-use the component object with this number within the case
 }
 
@@ -308,7 +309,11 @@ func ApplyIn(reg *Registry, op string, par Par, args []Tensor) (Tensor, *Passed,
 func apply(reg *Registry, op string, par Par, args []Tensor, cp func([]int) []int, ranges func([][2]int) []tensor.Range, p *Passed) (Tensor, error) {
 	switch op {
 	case "full":
-		return tensor.Full(cp(par.Shape), par.K.Float(), nil)
+		v := par.K.Float()
+		if par.NegZ {
+			v = math.Copysign(0, -1)
+		}
+		return tensor.Full(cp(par.Shape), v, nil)
 	case "zeros":
 		return tensor.Zeros(cp(par.Shape), nil)
 	case "ones":
